@@ -51,9 +51,9 @@ type vkStub struct {
 	prefetch middleware.Queryer
 }
 
-func (s *vkStub) Name() string                                 { return "vkstub" }
-func (s *vkStub) SetQueryer(q middleware.Queryer)              { s.queryer = q }
-func (s *vkStub) SetPrefetchQueryer(q middleware.Queryer)      { s.prefetch = q }
+func (s *vkStub) Name() string                            { return "vkstub" }
+func (s *vkStub) SetQueryer(q middleware.Queryer)         { s.queryer = q }
+func (s *vkStub) SetPrefetchQueryer(q middleware.Queryer) { s.prefetch = q }
 func (s *vkStub) ServeDNS(ctx context.Context, ch *middleware.Chain) {
 	s.calls++
 	_, req := ch.Materialize(ctx)
@@ -78,7 +78,9 @@ type vkTransport struct {
 	bad    int
 }
 
-func (t *vkTransport) LocalAddr() net.Addr  { return &net.UDPAddr{IP: net.IPv4(192, 0, 2, 53), Port: 53} }
+func (t *vkTransport) LocalAddr() net.Addr {
+	return &net.UDPAddr{IP: net.IPv4(192, 0, 2, 53), Port: 53}
+}
 func (t *vkTransport) RemoteAddr() net.Addr { return t.remote }
 func (t *vkTransport) WriteMsg(m *dns.Msg) error {
 	t.msgs = append(t.msgs, m)
@@ -348,31 +350,31 @@ func vkIndex(names []string, n string) int {
 	return -1
 }
 
-func vkStructure(vp *vkPipe) []string {
-	var out []string
+func vkStructure(vp *vkPipe) [][2]string {
+	var out [][2]string
 	names := vp.names()
 	ai := vkIndex(names, "accesslist")
 	if ai < 0 {
-		return []string{fmt.Sprintf("accesslist is not in the built default chain %v", names)}
+		return [][2]string{{"accesslist-missing", fmt.Sprintf("accesslist is not in the built default chain %v", names)}}
 	}
 	for _, n := range vkMustFollowACL {
 		if i := vkIndex(names, n); i >= 0 && i < ai {
-			out = append(out, fmt.Sprintf("handler %q (which can answer or resolve) runs before accesslist in the default chain %v", n, names))
+			out = append(out, [2]string{n + "-before-accesslist", fmt.Sprintf("handler %q (which can answer or resolve) runs before accesslist in the default chain %v", n, names)})
 		}
 	}
 	for which, q := range map[string]middleware.Queryer{"queryer": vp.stub.queryer, "prefetch-queryer": vp.stub.prefetch} {
 		sub := middleware.VkQueryerHandlerNames(q)
 		if sub == nil {
-			out = append(out, "autoWire did not hand a pipeline "+which+" to a QueryerSetter handler")
+			out = append(out, [2]string{"no-" + which, "autoWire did not hand a pipeline " + which + " to a QueryerSetter handler"})
 			continue
 		}
 		for _, n := range vkClientPolicy {
 			if vkIndex(sub, n) >= 0 {
-				out = append(out, fmt.Sprintf("client-policy handler %q is part of the internal %s sub-pipeline %v", n, which, sub))
+				out = append(out, [2]string{n + "-in-internal-" + which, fmt.Sprintf("client-policy handler %q is part of the internal %s sub-pipeline %v", n, which, sub)})
 			}
 		}
 		if vkIndex(sub, "vkstub") < 0 {
-			out = append(out, fmt.Sprintf("internal %s sub-pipeline %v does not reach the resolver position", which, sub))
+			out = append(out, [2]string{which + "-misses-resolver-position", fmt.Sprintf("internal %s sub-pipeline %v does not reach the resolver position", which, sub)})
 		}
 	}
 	return out
@@ -476,7 +478,7 @@ func TestVerifC17Pipeline(t *testing.T) {
 		}
 		c.Add("evaluations", 1)
 		for _, v := range vkStructure(vp) {
-			c.Violation("pipeline:structure:"+v[:min(len(v), 60)], v, vkCase{Scenario: "structure"})
+			c.Violation("pipeline:structure:"+v[0], v[1], vkCase{Scenario: "structure"})
 		}
 		c.Outcome("structure-checked")
 		for k, v := range vkInternal(c, vp) {
